@@ -56,10 +56,35 @@ type VC struct {
 	Assumed  []string // human-readable list of assumptions used (for evidence)
 	Abstracted []string
 	kindCtr  map[string]int
+	Replay   *ReplayInfo
+	defs     map[string]*Term
+	QF       bool // bounded search VC: quantifier-free, z3 only (native constant arrays)
+}
+
+type scriptOpt struct {
+	Models    bool
+	NoCheck   bool  // omit (check-sat): interactive session
+	DropQuant bool  // drop quantified assumptions (model search only)
+	BoundLens []Val // keep parameter slices small enough to replay
+}
+
+func hasQuant(t *Term) bool {
+	if t.Op == "forall" || t.Op == "exists" {
+		return true
+	}
+	for _, a := range t.Args {
+		if hasQuant(a) {
+			return true
+		}
+	}
+	return false
 }
 
 func NewVC(fn string) *VC {
-	return &VC{FuncName: fn, nameCtr: map[string]int{}, declared: map[string]bool{}, kindCtr: map[string]int{}}
+	vc := &VC{FuncName: fn, nameCtr: map[string]int{}, declared: map[string]bool{}, kindCtr: map[string]int{}, defs: map[string]*Term{}}
+	curDefs = vc.defs
+	dynBase = ""
+	return vc
 }
 
 func sanitize(s string) string {
@@ -96,6 +121,7 @@ func (vc *VC) Def(base string, t *Term) *Term {
 	}
 	name := vc.freshName(base)
 	vc.Items = append(vc.Items, Item{Kind: itDef, Name: name, Sort: t.Sort, Term: t})
+	vc.defs[name] = t
 	return Sym(name, t.Sort)
 }
 
@@ -138,12 +164,23 @@ func (vc *VC) Oblige(kind, label string, goal *Term, pos string) *Obligation {
 
 // Script renders the SMT-LIB query of an obligation.
 func (ob *Obligation) Script(timeoutMs int, wantModel bool) string {
+	return ob.ScriptOpt(scriptOpt{Models: wantModel})
+}
+
+func (ob *Obligation) ScriptOpt(opt scriptOpt) string {
 	vc := ob.vc
+	wantModel := opt.Models || opt.NoCheck
 	var sb strings.Builder
 	if wantModel {
 		sb.WriteString("(set-option :produce-models true)\n")
 	}
-	sb.WriteString("(set-logic ALL)\n(declare-fun STR () (Array Int (Array Int Int)))\n(declare-fun ZERO () (Array Int Int))\n(assert (forall ((j Int)) (! (= (select ZERO j) 0) :pattern ((select ZERO j)))))\n")
+	sb.WriteString("(set-logic ALL)\n(declare-fun STR () (Array Int (Array Int Int)))\n")
+	if opt.NoCheck || vc.QF {
+		// z3 session: constant arrays are native there
+		sb.WriteString("(define-fun ZERO () (Array Int Int) ((as const (Array Int Int)) 0))\n")
+	} else {
+		sb.WriteString("(declare-fun ZERO () (Array Int Int))\n(assert (forall ((j Int)) (! (= (select ZERO j) 0) :pattern ((select ZERO j)))))\n")
+	}
 	for _, l := range vc.Prelude {
 		sb.WriteString(l)
 		sb.WriteByte('\n')
@@ -198,7 +235,23 @@ func (ob *Obligation) Script(timeoutMs int, wantModel bool) string {
 		case itDef:
 			fmt.Fprintf(&sb, "(define-fun %s () %s %s)\n", it.Name, it.Sort, it.Term)
 		case itAssume:
+			if opt.DropQuant && hasQuant(it.Term) {
+				continue
+			}
 			fmt.Fprintf(&sb, "(assert %s)\n", it.Term)
+		}
+	}
+	for _, p := range opt.BoundLens {
+		lay := layoutOf(p.T)
+		for i, lf := range lay.Leaves {
+			switch lf.K {
+			case LLen:
+				fmt.Fprintf(&sb, "(assert (<= %s 4096))\n", p.L[i])
+			case LCap:
+				fmt.Fprintf(&sb, "(assert (<= %s 8192))\n", p.L[i])
+			case LOff:
+				fmt.Fprintf(&sb, "(assert (<= %s 64))\n", p.L[i])
+			}
 		}
 	}
 	if ob.Excuse != nil {
@@ -208,6 +261,9 @@ func (ob *Obligation) Script(timeoutMs int, wantModel bool) string {
 		fmt.Fprintf(&sb, "(assert %s)\n", ob.Goal)
 	} else {
 		fmt.Fprintf(&sb, "(assert (not %s))\n", ob.Goal)
+	}
+	if opt.NoCheck {
+		return sb.String()
 	}
 	sb.WriteString("(check-sat)\n")
 	if wantModel {
